@@ -94,6 +94,10 @@ type Reply struct {
 	Gate       chan struct{} // if set, wait on it before acting
 	ErrorText  string
 	ForceState string
+	// AfterDeath: the reply is sent even if the task has turned terminal meanwhile (the executor
+	// answered, then the process died; framework messages and status updates travel separately, so
+	// the answer may reach the scheduler after the terminal update)
+	AfterDeath bool
 }
 
 // CallFault says how the master treats one scheduler call.
